@@ -540,7 +540,9 @@ Definition wres_eqb (m i : wres) : bool :=      (* model answer first; WAny is a
 Inductive cmp := CLt | CNlt | CRaise.       (* a < b is True / is False / raises *)
 
 Record case := { c_terms : list term;
-                 c_hash : list (str * Z) }.     (* oracle: Python's hash of the strings involved *)
+                 c_hash : list (str * Z);       (* oracle: Python's hash of the strings involved *)
+                 c_ill : list bool }.           (* oracle, per term: a literal rdflib holds to be ill-typed
+                                                   (ill_typed, or no value for a recognised datatype); only used by kf *)
 
 Record obs := { o_eq : list (list bool);
                 o_hash : list (option Z);         (* None: a string missing in the oracle *)
@@ -583,7 +585,42 @@ Definition decimal_nan (t : term) : bool :=
   | _ => false
   end.
 
-Definition kf (c : case) : N := if existsb decimal_nan (c_terms c) then 3 else 0.
+(* two literals of one datatype family: the same datatype IRI (all language-tagged and plain literals together) *)
+Definition same_dt (a b : term) : bool :=
+  match a, b with
+  | Lit _ dt _, Lit _ dt' _ => ostr_eqb dt dt'
+  | _, _ => false
+  end.
+(* a literal the constructor can build: no private empty language tag *)
+Definition public (t : term) : bool := match t with Lit _ _ (Some []) => false | _ => true end.
+Definition same_family (a b : term) : bool := same_dt a b && public a && public b.
+
+(* F7i: xsd:duration / xsd:yearMonthDuration literals (isodate Duration against timedelta) are not ordered consistently *)
+Definition ym_duration (t : term) : bool :=
+  match t with
+  | Lit _ (Some d) _ => str_eqb d xsd_duration || str_eqb d xsd_yearmonthduration
+  | _ => false
+  end.
+(* F7j: tags that differ only in case: == ignores case, Literal.__gt__ orders the tags case-sensitively *)
+Definition case_variant (a b : term) : bool :=
+  match a, b with
+  | Lit _ _ (Some l), Lit _ _ (Some l') => negb (str_eqb l l') && str_eqb (lower l) (lower l')
+  | _, _ => false
+  end.
+(* F7k: an ill-typed literal is ordered by its lexical form among literals of its datatype that are ordered by value *)
+Fixpoint ill_in_family (ts : list term) (ill : list bool) (all : list term) : bool :=
+  match ts, ill with
+  | t :: r, b :: rb => (b && (2 <? N.of_nat (length (filter (same_family t) all)))) || ill_in_family r rb all
+  | _, _ => false
+  end.
+
+Definition kf (c : case) : N :=
+  let ts := c_terms c in
+  if existsb decimal_nan ts then 3
+  else if 1 <? N.of_nat (length (filter ym_duration ts)) then 8
+  else if existsb (fun a => existsb (case_variant a) ts) ts then 9
+  else if ill_in_family ts (c_ill c) ts then 10
+  else 0.
 
 Definition model_obs (c : case) : obs :=
   let ts := c_terms c in
@@ -653,7 +690,18 @@ Definition lt_entry_ok (a b : term) (e : option cmp) : bool :=
   | None, _ => true
   end.
 
-Definition spec_ok (c : case) (o : obs) : bool :=
+(* what reproducible sorting needs of < inside one datatype family, on the observed matrix *)
+Definition is_lt (e : option cmp) : bool := match e with Some CLt => true | _ => false end.
+Definition family_ok (ts : list term) (L : list (list (option cmp))) : bool :=
+  let t := fun i => nth i ts (IRI []) in
+  let lt := fun i j => is_lt (nthd L i j None) in
+  forallb (fun i => forallb (fun j =>
+      implb (same_family (t i) (t j)) (negb (lt i j && lt j i))) (idx ts)) (idx ts)      (* irreflexive, asymmetric *)
+  && forallb (fun i => forallb (fun j => forallb (fun k =>
+      implb (same_family (t i) (t j) && same_family (t j) (t k)) (implb (lt i j && lt j k) (lt i k)))
+      (idx ts)) (idx ts)) (idx ts).                                                       (* transitive *)
+
+Definition spec_base (c : case) (o : obs) : bool :=
   let ts := c_terms c in
   let n := length ts in
   let E := fun i j => nthd (o_eq o) i j false in
@@ -674,6 +722,8 @@ Definition spec_ok (c : case) (o : obs) : bool :=
   && forallb (fun i => forallb (fun j =>
         lt_entry_ok (nth i ts (IRI [])) (nth j ts (IRI [])) (nthd (o_lt o) i j None)) (idx ts)) (idx ts)
   && match o_sort o with Some false => false | _ => true end.
+
+Definition spec_ok (c : case) (o : obs) : bool := spec_base c o && family_ok (c_terms c) (o_lt o).
 
 (* ================================================================== *)
 (* Suite "text": n3 / from_n3 / pickle of one term *)
